@@ -37,8 +37,8 @@ CHECKS = {
                         "rapid's generator explores the large-content space by sampling, not exhaustively"],
         "stages": [
             enum("enum", "TestEnum", qs=16, ts=16, qt=300, tt=3000),
-            rapid("small", "TestSmall", 40000, 2000000, qs=2, ts=8, qt=300, tt=3000),
-            rapid("large", "TestLarge", 960, 6000, qs=16, ts=16, qt=400, tt=3000),
+            rapid("small", "TestSmall", 40000, 4000000, qs=2, ts=8, qt=300, tt=3000),
+            rapid("large", "TestLarge", 960, 16000, qs=16, ts=16, qt=400, tt=3000),
         ],
     },
     "C01": {
@@ -58,7 +58,7 @@ CHECKS = {
         "required_classes": {"quick": ["op:blockrange", "op:data", "op:wholefile-renamed", "comp:gzip", "comp:brotli", "size:=k*64Ki"],
                              "thorough": ["op:blockrange", "op:data", "op:wholefile-renamed", "comp:gzip", "comp:brotli", "size:=k*64Ki",
                                           "size:>4MiB", "rel:aligned-prefix-of-larger-old", "old:two-files-share-a-block", "op:data-run>=4MiB"]},
-        "stages": [rapid("roundtrip", "TestProp", 4800, 64000, qs=16, ts=16, qt=600, tt=5400)],
+        "stages": [rapid("roundtrip", "TestProp", 4800, 256000, qs=16, ts=16, qt=600, tt=5400)],
     },
     "C02": {
         "title": "In-place apply equals fresh apply and leaves the old build intact until commit",
@@ -75,7 +75,7 @@ CHECKS = {
         "assumptions": ["names ending in .butler-rename-N are never generated (implicit precondition of the commit phase)"],
         "required_classes": {"quick": ["rel:swap", "rel:chain", "rel:rename-or-dup-without-original", "rel:source-of-rename-also-patched", "commit:overlay", "commit:ghost", "kindchange:d->f", "kindchange:f->d", "kindchange:d->l"],
                              "thorough": ["rel:swap", "rel:chain", "rel:rename-or-dup-without-original", "rel:source-of-rename-also-patched", "commit:overlay", "commit:ghost", "series:bsdiff"]},
-        "stages": [rapid("inplace", "TestProp", 4000, 40000, qs=16, ts=16, qt=600, tt=5400)],
+        "stages": [rapid("inplace", "TestProp", 4000, 200000, qs=16, ts=16, qt=600, tt=5400)],
     },
     "C07": {
         "title": "Optimizing a patch never changes what it produces",
@@ -90,7 +90,7 @@ CHECKS = {
         "assumptions": [],
         "required_classes": {"quick": ["series:bsdiff", "new-file:shorter-than-partitions", "opt:ForceMapAll", "series:bsdiff-against-differently-named-old-file"],
                              "thorough": ["series:bsdiff", "new-file:shorter-than-partitions", "opt:ForceMapAll", "series:bsdiff-against-differently-named-old-file", "series:excluded-by-size-limit"]},
-        "stages": [rapid("optimize", "TestProp", 4800, 48000, qs=16, ts=16, qt=600, tt=5400)],
+        "stages": [rapid("optimize", "TestProp", 4800, 288000, qs=16, ts=16, qt=600, tt=5400)],
     },
     "C03": {
         "title": "Interrupted patch application resumes from any checkpoint to the same result",
@@ -112,7 +112,7 @@ CHECKS = {
         "required_classes": {"quick": ["ck:in-overlay-file", "ck:in-bsdiff-series", "resume:lag>0", "resume:damaged-tail"],
                              "thorough": ["cell:%s/%s/%s" % (b, o, c) for b in ("fresh", "overlay") for o in ("plain", "optimized") for c in ("none", "gzip", "brotli")]
                                          + ["ck:in-overlay-file", "ck:in-bsdiff-series", "resume:lag>0", "resume:damaged-tail", "schedule:chain>=2", "schedule:pattern"]},
-        "stages": [rapid("resume", "TestProp", 480, 4800, qs=16, ts=16, qt=600, tt=7200)],
+        "stages": [rapid("resume", "TestProp", 480, 9600, qs=16, ts=16, qt=600, tt=7200)],
     },
     "C17": {
         "title": "Partial application by whitelist produces exactly the selected files",
@@ -129,7 +129,7 @@ CHECKS = {
         "assumptions": [],
         "required_classes": {"quick": ["skipped:bsdiff", "skipped:rsync", "skipped:wholefile", "selected:bsdiff", "skipped:bsdiff-target-2049"],
                              "thorough": ["skipped:bsdiff", "skipped:rsync", "skipped:wholefile", "selected:bsdiff", "skipped:bsdiff-target-2049", "skipped:emptyfile"]},
-        "stages": [rapid("whitelist", "TestProp", 7200, 64000, qs=16, ts=16, qt=600, tt=5400),
+        "stages": [rapid("whitelist", "TestProp", 7200, 256000, qs=16, ts=16, qt=600, tt=5400),
                    rapid("magic", "TestMagic", 12, 200, qs=4, ts=8, qt=600, tt=3000, shrinktime="5s")],
     },
     "C09": {
@@ -148,7 +148,7 @@ CHECKS = {
                                         "damage:truncate-at-block-boundary", "damage:extend-inside-last-block"],
                              "thorough": ["reuse:blockrange", "reuse:wholefile", "reuse:bsdiff", "outcome:damaged-rejected", "outcome:undamaged-accepted",
                                           "damage:truncate-at-block-boundary", "damage:extend-inside-last-block", "damage:extend-file-of-exact-block-multiple", "damage:delete"]},
-        "stages": [rapid("safekeeper", "TestProp", 8000, 64000, qs=16, ts=16, qt=600, tt=5400)],
+        "stages": [rapid("safekeeper", "TestProp", 8000, 128000, qs=16, ts=16, qt=600, tt=5400)],
     },
     "C08": {
         "title": "Data already present in the old build is not sent again",
@@ -166,7 +166,7 @@ CHECKS = {
         "assumptions": ["high-entropy streams do not collide on 64KiB blocks by chance"],
         "required_classes": {"quick": ["family:identical", "family:renames", "edits:length-changing", "edits:k=3"],
                              "thorough": ["family:identical", "family:renames", "edits:length-changing", "edits:k=4", "edited-file:>4MiB"]},
-        "stages": [rapid("freshbytes", "TestProp", 3600, 32000, qs=16, ts=16, qt=600, tt=5400)],
+        "stages": [rapid("freshbytes", "TestProp", 3600, 96000, qs=16, ts=16, qt=600, tt=5400)],
     },
     "C04": {
         "title": "A build validates against its own signature, however that was produced",
@@ -183,7 +183,7 @@ CHECKS = {
         "assumptions": [],
         "required_classes": {"quick": ["file:exact-block-multiple", "tree:empty-file-beside-non-empty", "comp:gzip", "comp:brotli", "tree:no-files"],
                              "thorough": ["file:exact-block-multiple", "tree:empty-file-beside-non-empty", "comp:gzip", "comp:brotli", "tree:no-files", "tree:symlinks"]},
-        "stages": [rapid("signature", "TestProp", 4800, 48000, qs=16, ts=16, qt=600, tt=5400)],
+        "stages": [rapid("signature", "TestProp", 4800, 192000, qs=16, ts=16, qt=600, tt=5400)],
     },
     "C05": {
         "title": "Validation reports every deviation from the signed build and locates it",
@@ -201,7 +201,7 @@ CHECKS = {
         "assumptions": [],
         "required_classes": {"quick": ["dir:identical", "dir:deviates", "damage:hides-subtree", "damage:length-change-crossing-block-boundary", "damage:flip-at-block-boundary-class"],
                              "thorough": ["dir:identical", "dir:deviates", "damage:hides-subtree", "damage:length-change-crossing-block-boundary", "damage:flip-at-block-boundary-class", "damage:retarget"]},
-        "stages": [rapid("wounds", "TestProp", 9600, 96000, qs=16, ts=16, qt=600, tt=5400)],
+        "stages": [rapid("wounds", "TestProp", 9600, 768000, qs=16, ts=16, qt=600, tt=5400)],
     },
     "C06": {
         "title": "Healing from an archive restores any damaged directory to the signed build",
@@ -217,7 +217,7 @@ CHECKS = {
         "assumptions": ["the healing archive is the zip of the pristine build, as in wharf's scenario tests"],
         "required_classes": {"quick": ["dir:already-valid", "dir:healed", "damage:hides-subtree", "damage:kind-swap:d->link", "damage:kind-swap:d->file"],
                              "thorough": ["dir:already-valid", "dir:healed", "damage:hides-subtree", "damage:kind-swap:d->link", "damage:kind-swap:d->file", "damage:whole-directory-delete", "damage:whole-directory-empty"]},
-        "stages": [rapid("heal", "TestProp", 3200, 32000, qs=16, ts=16, qt=600, tt=5400, schedule_dependent=True)],
+        "stages": [rapid("heal", "TestProp", 3200, 192000, qs=16, ts=16, qt=600, tt=5400, schedule_dependent=True)],
     },
     "C16": {
         "title": "Validation always terminates and a clean verdict is never caused by interruption",
@@ -235,8 +235,8 @@ CHECKS = {
         "assumptions": ["a case that needs more than 60s (120s for the >1024-wound stage) is treated as a hang candidate; normal cases take milliseconds to ~1s"],
         "required_classes": {"quick": ["cancel:before-start", "cancel:in-callback", "cancel:after-delay", "consumer:failfast", "consumer:heal-partial", "tree:>1024-entries", "tree:file->1024-blocks"],
                              "thorough": ["cancel:before-start", "cancel:in-callback", "cancel:after-delay", "consumer:failfast", "consumer:heal-partial", "consumer:woundsfile-unwritable", "tree:>1024-entries", "many-damage:last-file"]},
-        "stages": [rapid("terminate", "TestProp", 4800, 48000, qs=16, ts=16, qt=600, tt=5400, schedule_dependent=True),
-                   rapid("manywounds", "TestMany", 96, 1600, qs=16, ts=16, qt=600, tt=5400, schedule_dependent=True, shrinktime="10s")],
+        "stages": [rapid("terminate", "TestProp", 4800, 192000, qs=16, ts=16, qt=600, tt=5400, schedule_dependent=True),
+                   rapid("manywounds", "TestMany", 96, 3200, qs=16, ts=16, qt=600, tt=5400, schedule_dependent=True, shrinktime="10s")],
     },
     "C18": {
         "title": "Writing through a validating pool checks every block regardless of write sizes",
@@ -256,8 +256,8 @@ CHECKS = {
         "assumptions": [],
         "required_classes": {"quick": ["mode:error", "mode:wounds", "mode:aggregate", "bad-block:not-first", "bad-block:beyond-signed-count", "write:straddles-block-boundary"],
                              "thorough": ["mode:error", "mode:wounds", "mode:aggregate", "bad-block:not-first", "bad-block:beyond-signed-count", "write:straddles-block-boundary"]},
-        "stages": [rapid("validatingpool", "TestProp", 48000, 400000, qs=16, ts=16, qt=600, tt=5400),
-                   rapid("viapatcher", "TestViaPatcher", 4800, 64000, qs=16, ts=16, qt=600, tt=5400)],
+        "stages": [rapid("validatingpool", "TestProp", 48000, 2000000, qs=16, ts=16, qt=600, tt=5400),
+                   rapid("viapatcher", "TestViaPatcher", 4800, 192000, qs=16, ts=16, qt=600, tt=5400)],
     },
     "C13": {
         "title": "Messages survive any compression setting; reader checkpoints resume exactly",
@@ -274,7 +274,7 @@ CHECKS = {
         "assumptions": [],
         "required_classes": {"quick": ["checkpoint:after-last-message", "checkpoint:source-lags-message-offset", "msg:around-32KiB-buffer", "comp:gzip", "comp:brotli"],
                              "thorough": ["checkpoint:after-last-message", "checkpoint:source-lags-message-offset", "msg:around-32KiB-buffer", "msg:>4MiB", "comp:gzip", "comp:brotli"]},
-        "stages": [rapid("wire", "TestProp", 4800, 64000, qs=16, ts=16, qt=600, tt=5400)],
+        "stages": [rapid("wire", "TestProp", 4800, 320000, qs=16, ts=16, qt=600, tt=5400)],
     },
     "C14": {
         "title": "An overlay turns the old file into the new file, whatever the write pattern",
@@ -292,7 +292,7 @@ CHECKS = {
         "assumptions": ["at most 24 sessions per case (each allocates two 128KiB buffers)"],
         "required_classes": {"quick": ["op:skip", "op:fresh", "sessions:>1", "flush:some", "entropy:periodic", "new:shorter", "new:longer"],
                              "thorough": ["op:skip", "op:fresh", "sessions:>1", "flush:some", "entropy:periodic", "entropy:constant", "new:shorter", "new:longer", "new:empty"]},
-        "stages": [rapid("overlay", "TestProp", 16000, 200000, qs=16, ts=16, qt=600, tt=5400)],
+        "stages": [rapid("overlay", "TestProp", 16000, 600000, qs=16, ts=16, qt=600, tt=5400)],
     },
     "C12": {
         "title": "A bsdiff series applied to the old file yields the new file",
@@ -312,8 +312,8 @@ CHECKS = {
         "required_classes": {"quick": ["old:empty", "new:empty", "new:shorter-than-partitions", "old:shorter-than-partitions", "cache:evictions", "seek:out-of-range", "old:>32MiB-cache"],
                              "thorough": ["old:empty", "new:empty", "new:shorter-than-partitions", "old:shorter-than-partitions", "cache:evictions", "seek:out-of-range", "old:>32MiB-cache", "size:>1MiB"]},
         "stages": [enum("enum", "TestEnum", qs=16, ts=16, qt=600, tt=5400),
-                   rapid("random", "TestRandom", 1600, 24000, qs=16, ts=16, qt=600, tt=5400),
-                   rapid("lrufile", "TestLru", 40000, 1600000, qs=4, ts=16, qt=600, tt=5400),
+                   rapid("random", "TestRandom", 1600, 96000, qs=16, ts=16, qt=600, tt=5400),
+                   rapid("lrufile", "TestLru", 40000, 4800000, qs=4, ts=16, qt=600, tt=5400),
                    rapid("farseeks", "TestFar", 8, 160, qs=4, ts=8, qt=600, tt=5400, shrinktime="10s")],
     },
     "C10": {
@@ -337,7 +337,7 @@ CHECKS = {
         "required_classes": {"quick": ["target:apply-fresh", "target:optimize", "target:signature", "target:overlay", "mutation:set:fileIndex", "framing:compressed", "truncation:every-prefix"],
                              "thorough": ["target:apply-fresh", "target:optimize", "target:signature", "target:overlay", "mutation:set:fileIndex", "framing:compressed", "truncation:every-prefix"]},
         "stages": [enum("truncate", "TestTruncate", qs=16, ts=16, qt=900, tt=5400),
-                   rapid("mutate", "TestMutate", 16000, 320000, qs=16, ts=16, qt=600, tt=5400)],
+                   rapid("mutate", "TestMutate", 16000, 960000, qs=16, ts=16, qt=600, tt=5400)],
         "fuzz": {"targets": ["FuzzApplyFresh", "FuzzOptimize", "FuzzSignature", "FuzzOverlay"], "seconds": 240, "workers": 4},
     },
     "C15": {
@@ -377,8 +377,8 @@ CHECKS = {
         "assumptions": ["the destination directory exists and is empty, as the statement says"],
         "required_classes": {"quick": ["format:tar", "format:zip", "schedule:constructed-out-of-order-completion", "crash:with-in-flight-lower-index-entry", "tree:one-large-among-small"],
                              "thorough": ["format:tar", "format:zip", "schedule:constructed-out-of-order-completion", "crash:with-in-flight-lower-index-entry", "tree:one-large-among-small", "workers:-1", "workers:16"]},
-        "stages": [rapid("roundtrip", "TestProp", 4800, 48000, qs=16, ts=16, qt=600, tt=5400, schedule_dependent=True),
-                   rapid("crash", "TestCrash", 480, 6400, qs=16, ts=16, qt=900, tt=5400, schedule_dependent=True, shrinktime="20s"),
+        "stages": [rapid("roundtrip", "TestProp", 4800, 192000, qs=16, ts=16, qt=600, tt=5400, schedule_dependent=True),
+                   rapid("crash", "TestCrash", 480, 19200, qs=16, ts=16, qt=900, tt=5400, schedule_dependent=True, shrinktime="20s"),
                    rapid("race", "TestProp", 320, 4800, qs=16, ts=16, qt=900, tt=5400, race=True, schedule_dependent=True, shrinktime="10s")],
     },
 }
